@@ -15,6 +15,19 @@ Model of `serde_arrow/src/internal/schema/tracer.rs`: the `Tracer` tree and its 
 namespace SaModel.Trace
 open SaModel
 
+/-- which code is modelled: the repaired tree (`Code.fixed`, what `/repo` contains after the `fix:` commits) or
+the pinned one (`Code.pinned`).  One flag per repaired defect. -/
+structure Code where
+  /-- fix #26: `ensure_struct` on an existing struct switches to map mode when the new sample is a map -/
+  struct_mode_join : Bool := true
+  /-- fix #25: `ensure_tuple` on an existing tuple marks the fields a shorter tuple lacks as nullable and adds the
+  fields a longer tuple brings as nullable fields -/
+  tuple_arity_nullable : Bool := true
+deriving Repr, DecidableEq
+
+def Code.fixed : Code := {}
+def Code.pinned : Code := { struct_mode_join := false, tuple_arity_nullable := false }
+
 inductive StructMode where
   | struct | map
 deriving Repr, BEq, DecidableEq, Inhabited
@@ -187,29 +200,41 @@ def mkStructFields (path : String) : List String → TFields
   | f :: r => .cons f 0 (Tracer.new f (path ++ "." ++ f)) (mkStructFields path r)
 
 /-- `Tracer::ensure_struct` -/
-def Tracer.ensure_struct (t : Tracer) (fields : List String) (mode : StructMode) : R Tracer := do
+def Tracer.ensure_struct (c : Code) (t : Tracer) (fields : List String) (mode : StructMode) : R Tracer := do
   t.enforce_depth_limit
   if t.is_unknown_or_null then
     .ok (.struct t.name t.path t.nullable (mkStructFields t.path fields) mode 0)
   else match t with
-    | .struct _ _ _ _ _ _ => .ok t
+    | .struct n p nl fs m s =>
+      -- pinned: `Self::Struct(_tracer) => {}` keeps the mode of the first sample (finding #26)
+      if c.struct_mode_join && mode == .map then .ok (.struct n p nl fs .map s) else .ok t
     | _ => fail "Mismatched types: current struct"
-
-/-- the pinned `ensure_struct` is the same function: it keeps the mode of the first sample when a position is
-seen once through `serialize_struct` and once through `serialize_map` (finding #26) -/
-def Tracer.ensure_structPinned := Tracer.ensure_struct
 
 def mkTupleFields (path : String) (n : Nat) : Nat → Tracers
   | 0 => .nil
   | k + 1 => .cons (Tracer.new (toString (n - (k + 1))) (path ++ "." ++ toString (n - (k + 1)))) (mkTupleFields path n k)
 
+/-- `field.mark_nullable()` for every field from position `k` on -/
+def Tracers.markFrom : Tracers → Nat → Tracers
+  | .nil, _ => .nil
+  | .cons t r, 0 => .cons t.mark_nullable (r.markFrom 0)
+  | .cons t r, k + 1 => .cons t (r.markFrom k)
+
+/-- `while field_tracers.len() < num_fields { push(nullable Tracer::new(len)) }` -/
+def tupleGrowNullable (path : String) (num_fields : Nat) (ts : Tracers) : Tracers :=
+  (List.range (num_fields - ts.length)).foldl
+    (fun acc _ => acc.push (Tracer.new (toString acc.length) (path ++ "." ++ toString acc.length)).mark_nullable) ts
+
 /-- `Tracer::ensure_tuple` -/
-def Tracer.ensure_tuple (t : Tracer) (num_fields : Nat) : R Tracer := do
+def Tracer.ensure_tuple (c : Code) (t : Tracer) (num_fields : Nat) : R Tracer := do
   t.enforce_depth_limit
   if t.is_unknown_or_null then
     .ok (.tuple t.name t.path t.nullable (mkTupleFields t.path num_fields num_fields))
   else match t with
-    | .tuple _ _ _ _ => .ok t
+    | .tuple n p nl ts =>
+      -- pinned: `Self::Tuple(_tracer) => {}` (finding #25)
+      if c.tuple_arity_nullable then .ok (.tuple n p nl (tupleGrowNullable p num_fields (ts.markFrom num_fields)))
+      else .ok t
     | _ => fail "Mismatched types: current tuple"
 
 def mkVariants (path : String) : List String → Variants
